@@ -57,7 +57,6 @@ func init() {
 			"the space is a singleton chain by nature; an evaluation is one generation step, non-trivial = a step whose output was compared byte for byte; distinct = distinct (generation, mode)",
 		Assumptions: []string{"go build of a scratch copy of the tree stands for the maintainer's build", "the map-order exploration of the self-configuration is part of C08"},
 		Workers:     1,
-		CaseTimeout: 1200 * time.Second,
 		BudgetQuick: 300 * time.Second, BudgetThorough: 600 * time.Second,
 		Run: func(w *W) {
 			w.Case("chain", func(c *C) {
